@@ -1,4 +1,4 @@
-import Secp.Proofs.DriversWrap
+import Secp.Proofs.DriversWrapField
 import Secp.Proofs.FieldMul
 import Secp.Proofs.FieldSmall
 /-
@@ -117,6 +117,6 @@ example : (⟨1, 0, 0, 0, 0, 0, 0, 0, 0, 0⟩ : L10).Tight := by simp [L10.Tight
 theorem setByteSlice_wrapper (f : Nat) (b : Secp.Spec.Bytes) (hb : b.length < 2^32) :
     Secp.Gen.Drivers.fieldSetByteSliceGen f b
       = (decide (Secp.Spec.beNat (b.take 32) ≥ Secp.Spec.P), Secp.Spec.beNat (b.take 32)) :=
-  Secp.Proofs.DriversWrap.fieldSetByteSlice_regenerated f b hb
+  Secp.Proofs.DriversWrapField.fieldSetByteSlice_regenerated f b hb
 
 end Secp.Props.C05
